@@ -20,6 +20,14 @@ func verifBufN() int {
 	return 20
 }
 
+// the two parsers with the most branching per byte get 28 instead of 40 bytes in the thorough tier
+func verifBufN28() int {
+	if vrt.Thorough() {
+		return 28
+	}
+	return 20
+}
+
 func verifBuf(max int) []byte {
 	n := vrt.Choice(max + 1)
 	return vrt.Bytes(n)
@@ -82,7 +90,7 @@ func VerifH_C07_layout() {
 
 func VerifH_C07_filterpipeline() {
 	vrt.AllocBudget(1 << 16)
-	data := verifBuf(verifBufN())
+	data := verifBuf(verifBufN28())
 	// stated bound: at most 2 filters in the message (the filter count byte drives an allocation and a loop)
 	vrt.Assume(len(data) < 2 || data[1] <= 2)
 	fp, err := ParseFilterPipelineMessage(data)
@@ -94,7 +102,7 @@ func VerifH_C07_filterpipeline() {
 
 func VerifH_C07_attribute() {
 	vrt.AllocBudget(1 << 16)
-	data := verifBuf(verifBufN())
+	data := verifBuf(verifBufN28())
 	a, err := ParseAttributeMessage(data, binary.LittleEndian)
 	if err == nil {
 		vrt.Assert(a != nil, "attribute-nil-without-error")
@@ -159,7 +167,7 @@ func VerifH_C07_lzf_decompress() {
 	vrt.AllocBudget(1 << 20)
 	n := 5
 	if vrt.Thorough() {
-		n = 8
+		n = 6
 	}
 	data := verifBuf(n)
 	out, err := lzfDecompress(data)
